@@ -15,7 +15,8 @@ CHECKS = {
  "C01": _c("Props/C01.v: for every n, label assignment, weight function (zero <= w < FLOAT_MAX) and non-empty prototype set, the modelled fit (heap-driven competition) "
            "yields costs equal to the minimum over all prototype-rooted paths of the largest arc (lower bound for every path + attainment), an acyclic predecessor forest with the "
            "link equation, root labels, and a conquest order that is a cost-sorted permutation; lifted from Z to every strict total order (Props/C01_anyorder.v) through a proved rank embedding. "
-           "Model tied to supervised.py by exact correspondence on cost/pred/labels/order (incl. int64/strided arrays, index maps with repeats, objects trained repeatedly).",
+           "Props/C01_capstone.v composes it over R with the regenerated metric terms as weights (41 symmetric non-negative identifiers, hypotheses on the data only). "
+           "Model tied to supervised.py by exact correspondence on cost/pred/labels/order (incl. int64/strided arrays, index maps with repeats, objects trained repeatedly, sparse rows under decorated metrics).",
            "5/C01", "Coq proof: Dijkstra-style loop invariant over the proved heap specification + path certificate lemma; model/impl correspondence",
            _T + "Weights finite, non-NaN, < FLOAT_MAX (sentinel)."),
  "C02": _c("Props/C02.v: the modelled _find_prototypes builds a spanning tree that is minimax-optimal against every path of the complete graph (order-only MST characterisation), "
@@ -38,7 +39,8 @@ CHECKS = {
            "5/C07", "Coq proof (frame theorem for effect programs) over regenerated decorator/store tables; dynamic byte-comparison and read-only streams as failing-input search",
            "Trusted: alias classification and mutating-method list of translator/stores.py; partial: thread/hash-seed nondeterminism not expressible."),
  "C08": _c("Props/C08.v (+C08_basic, C08_triangle): symmetry (42), asymmetry witnesses (5), non-negativity and zero self-distance (45 each) and the triangle inequality (13) of the closed forms "
-           "over R on the domains of the fixed axiom table, for every vector length; tied to the code through C06's closed-form theorems.",
+           "over R on the domains of the fixed axiom table, for every vector length; tied to the code through C06's closed-form theorems; Props/C08_code.v states them on the regenerated code terms; "
+           "Props/C08_float.v: for every odd rounding 41 of 42 symmetric identifiers are exactly symmetric under rounded evaluation, for every admissible rounding 31 (40 with rnd 1 = 1) have exactly zero self-distance and 31 are non-negative (sound syntactic analyses run on the regenerated terms by vm_compute).",
            "5/C08", "Coq proofs over Reals (Cauchy-Schwarz, Minkowski, log-sum, case factorisations) about closed forms linked to regenerated code terms",
            "Trusted: as C06. Float-level: Props/C08_robust.v proves, for every monotone sign-preserving rounding, that 44 of the 47 regenerated bodies never meet sqrt of a negative, log of a non-positive or a zero divisor (hassanat and mean_censored_euclidean on non-negative vectors by dedicated lemmas; jaccard not provable in that rounding model); overflow/underflow outside the model."),
  "C12": _c("Props/C12_pdf.v and Props/C12_arcs.v (k+1-slot scan = stable-sort prefix; arcs exact incl. ties, k > n-1, non-fresh subgraphs; per-rank maxima; density bound with fallback): density estimation over R: constant, pdf formula, min/max, affine order-preserving map onto [1, MAX_DENSITY], cost = density - 1, "
@@ -47,22 +49,25 @@ CHECKS = {
            _T + "exp values supplied by numpy as a table (no float exp in Coq)."),
  "C13": _c("Props/C13.v: for both clustering flavours (incl. the in-loop plateau insertion of the unsupervised routine) the predecessor map is a forest, every sample reaches exactly one root = its recorded root, "
            "cost/label/cluster-id equations, density gap, cluster ids 0..n_clusters-1 in removal order, label propagation. Tied by exact correspondence on the clustering step and by a PrimFloat "
-           "end-to-end model of the final training stage compared bit-for-bit with fitted KNN-supervised/unsupervised objects.", "5/C13", "Coq model + correspondence; forest invariant proof over the max-heap specification", _T),
+           "end-to-end model of the final training stage compared bit-for-bit with fitted KNN-supervised/unsupervised objects; Props/C13_pipeline.v proves every clause for that whole stage over R (hypotheses on the distances only); lifted to any strict total order (C13_anyorder.v).", "5/C13", "Coq model + correspondence; forest invariant proof over the max-heap specification", _T),
  "C14": _c("Props/C14_density.v: query density formula over R with the stored constants; KNN predict model (scan + density + arg-max) run in PrimFloat against both predicts, one case per "
-           "(model, query, batch position).", "5/C14", "Coq proof (R) + PrimFloat correspondence; exhaustive k-nearest oracle", _T),
+           "(model, query, batch position). Props/C14_pipeline.v: the rule on the fitted graph over R in terms of the data (k nearest of ALL samples by (distance, index), first arg-max of min(cost, density)); Props/C14_link.v: the term of the theorems is the term the harness runs at PrimFloat.", "5/C14", "Coq proof (R) + PrimFloat correspondence; exhaustive k-nearest oracle", _T),
  "C15": _c("Props/C15.v: C01's theorems for the semi-supervised competition over labeled+unlabeled nodes, labeled nodes keep their labels, unlabeled get the root prototype's label, and "
-           "semi_fit with an empty unlabeled set EQUALS sup_fit (record equality).", "5/C15", "Coq proof (shared with C01) + simulation; model/impl correspondence", _T),
+           "semi_fit with an empty unlabeled set EQUALS sup_fit (record equality); any strict total order (C15_anyorder.v); over R with metric terms as weights (C15_capstone.v).", "5/C15", "Coq proof (shared with C01) + simulation; model/impl correspondence", _T),
  "C16": _c("k-selection folds (knn_select, cut_select) tied by correspondence to _learn/_best_minimum_cut with criterion values captured by wrapping opf_accuracy/_normalized_cut; "
-           "Props/C16.v: smallest index attaining the maximum accuracy (all-zero => 1) / the minimum cut among the evaluated prefix (stop after an exact 0). The harness also checks that the final arcs and clustering use best_k.", "5/C16", "Coq fold theorems + correspondence with wrapped criteria", _T),
+           "Props/C16.v: smallest index attaining the maximum accuracy (all-zero => 1) / the minimum cut among the evaluated prefix (stop after an exact 0). "
+           "Props/C16_fit.v over Model/KnnLearn.v: the COMPLETE fit() of both KNN classifiers (k-search, accuracy incl. numpy's pairwise sum, normalised cut, final stage) as one term: selection over the criteria the model itself computes, final graph = final stage at best_k; "
+           "the same term runs at PrimFloat bit-for-bit against the real fit(). Every fitted object is also compared with a fresh build for best_k (found F12).", "5/C16", "Coq fold theorems + whole-fit model with bit-exact PrimFloat correspondence", _T),
  "C17": _c("Props/C17.v: learn conserves the (row,label) multiset and sizes for any draws and keeps the first best iteration; relevance flags = root paths of conquerors (= C03 winners); prune yields a sublist. "
-           "Tied by correspondence with recorded random draws, per-iteration accuracies/errors and the kept snapshot; multiset oracles on the real arrays.",
-           "5/C17", "Coq model + correspondence with recorded draws; multiset oracles", _T),
+           "Tied by correspondence with recorded random draws, per-iteration accuracies/errors and the kept snapshot; multiset oracles on the real arrays. "
+           "Props/C17_full.v over Model/LearnFull.v: learn/prune as closed loops calling the models of fit, predict and opf_accuracy (only the random draws are input), refinement to Model/Learn, kept classifier = sup_fit on the snapshot = an optimum-path forest (C01), prune sublist + retained = relevant.",
+           "5/C17", "Coq model + closed-loop correspondence with recorded draws only; multiset oracles", _T),
 
  "C04": _c("Props/C04_knn.v: KNN-supervised final clustering (forced prototypes) assigns every training sample its own label for any data and ties (cross-label offers are never accepted); "
            "Props/C04.v: tie-free supervised training gives every sample its own label and predicting a training row returns its label, derived from C01+C02+C03. "
            "Checked on the implementation for every eligible metric of the axiom table.", "5/C04", "Coq proof combining the Prim, Dijkstra and scan theorems; model/impl correspondence", _T),
  "C09": _c("Props/C09_sup.v: predict_batch = map predict_one and only the relevance flags of the model change; Props/C09_knn.v: the KNN batch with its threaded scratch array "
-           "equals the pointwise map. All four predicts tied by correspondence on batches with duplicates/permutations.", "5/C09", "Coq proof (induction over the batch); model/impl correspondence on batches", _T),
+           "equals the pointwise map. All four predicts tied by correspondence on batches with duplicates/permutations; whole-model snapshot around every predict call; C09_pipeline.v: any strict total order and the fitted graphs over R.", "5/C09", "Coq proof (induction over the batch); model/impl correspondence on batches", _T),
  "C10": _c("Every algorithm of the model takes its weights as a function argument; Props/C10_logic.v: pointwise-equal weight functions give equal outputs and the indexed matrix read equals "
            "the direct metric call when the index arrays identify the rows; Props/C10_glue.v: nodes built from split_with_index outputs satisfy that hypothesis, min-max normalisation lands in [0,1]. End-to-end: models through a distance file written by pre_compute_distance (.txt/.csv, index arrays) compared "
            "bit-for-bit with the direct models; get_distances checked.", "5/C10", "Coq proof (weight extensionality / parametricity) + end-to-end file correspondence",
